@@ -46,6 +46,9 @@ pub fn solver_cases(lm: &LinearModel, tags: &[String], stream: &str, variants: &
             SolverKind::Auto => gen_lp::mlp(&raw_milp).map(|r| format!("auto-wrap {} {}", lms, r)),
             SolverKind::MicroLp => gen_lp::mlp(&call(SolverKind::RawMicroLp)).map(|r| format!("microlp-wrap {} {}", lms, r)),
             SolverKind::Clarabel => gen_lp::clarabel_req(lm, &lms, variants, if hung.get() { Duration::from_millis(400) } else { TIMEOUT }),
+            // the tableau simplex involves no external solver: the WHOLE entry point is a model function
+            // (`SlowSimplex.solveReal`: standardize -> into_tableau -> solve(limit) -> as_lp_solution + error arms)
+            SolverKind::Simplex => Some(format!("simplex-wrap {} {} {}", sx::num(crate::gen_std::measured_tolerance()), if opts.simplex_limit == 0 { 10000 } else { opts.simplex_limit }, lms)),
             _ => None,
         }.unwrap_or_default();
         if matches!(o, Outcome::Hang) { c.req.clear(); }
@@ -67,6 +70,26 @@ pub fn solver_cases(lm: &LinearModel, tags: &[String], stream: &str, variants: &
         }
         c.show = format!("{} on: {}", kind.name(), show_model(lm));
         out.push(c);
+    }
+    // the iteration-limit arm of the tableau simplex (`SimplexError::IterationLimitReached -> LimitReached`): the same
+    // model with a limit of one pivot and with a non-positive limit (the loop body never runs)
+    if cont && !hung.get() {
+        for limit in [1i64, -1] {
+            let o2 = Opts { simplex_limit: limit, ..Opts::default() };
+            let o = child::solve(SolverKind::Simplex, lm, &o2, TIMEOUT);
+            if matches!(o, Outcome::Hang) { continue; }
+            let mut c = Case::default();
+            c.imp = gen_lp::result(&o);
+            c.req = format!("simplex-wrap {} {} {}", sx::num(crate::gen_std::measured_tolerance()), limit, lms);
+            c.oracle = format!("check-solution {} {} {}", lms, SolverKind::Simplex.name(), c.imp);
+            c.tags = tags.to_vec();
+            c.tags.push(format!("stream-{}", stream));
+            c.tags.push(format!("simplex-limit-{}", limit));
+            c.tags.push(match &o { Outcome::Solution(_) => "answer-solution".to_string(), Outcome::Err { variant, .. } => format!("answer-err-{}", variant), Outcome::Panic(_) => "answer-panic".into(), Outcome::Hang => "answer-hang".into() });
+            c.nontrivial = matches!(o, Outcome::Solution(_));
+            c.show = format!("simplex(limit {}) on: {}", limit, show_model(lm));
+            out.push(c);
+        }
     }
 }
 
@@ -233,6 +256,15 @@ pub fn generate(seed: u64, n: usize, thorough: bool, _corpus: Option<&str>) -> V
             solver_cases(&lm, &["malformed".to_string(), format!("malformed-{}", kind)], "malformed", &variants, &mut cases);
             // a panic on an ill-formed model (C08's territory) is recorded in the distribution, not as a C04 violation
             for c in cases[before..].iter_mut() { c.impl_violation = None; c.sig = None; }
+        }
+        if i % 10 == 7 {
+            let lm = gen_lp::permuted_domain(&mut r, i % 20 == 7);
+            solver_cases(&lm, &["permuted-domain-order".to_string()], "permuted-domain-order", &variants, &mut cases);
+        }
+        if i % 10 == 9 {
+            if let Some((lm, _)) = gen_lp::from_text(&mut r) {
+                solver_cases(&lm, &["text-pipeline-define-order".to_string()], "text-pipeline-define-order", &variants, &mut cases);
+            }
         }
         if i % 10 == 0 {
             let lm = variable_free(&mut r);
